@@ -49,7 +49,7 @@ def san_env(extra=None):
     e['ASAN_OPTIONS'] = 'detect_leaks=1:exitcode=99:handle_abort=1:symbolize=1:detect_stack_use_after_return=0:allocator_may_return_null=1'
     e['LSAN_OPTIONS'] = 'suppressions=%s:print_suppressions=0' % os.path.join(HERE, 'lsan-suppressions.txt')
     e['UBSAN_OPTIONS'] = 'print_stacktrace=1:halt_on_error=1:exitcode=98'
-    e['TSAN_OPTIONS'] = 'exitcode=97:halt_on_error=1:second_deadlock_stack=1' + \
+    e['TSAN_OPTIONS'] = 'exitcode=97:halt_on_error=0:second_deadlock_stack=1' + \
         ('' if os.environ.get('VERIF_PROXY_NO_TSAN_SUPP') else ':suppressions=' + os.path.join(HERE, 'tsan-suppressions.txt'))
     sym = shutil.which('llvm-symbolizer')
     if sym:
@@ -112,7 +112,7 @@ def run_case(case, B, msgb, keep=False, debug=False, dump=False):
         cmd += ['-buffers', str(int(case['buffers']))]
     if debug:
         cmd += ['-debug', '1']
-    env = san_env({'VERIF_SIM_LOG': simlog, 'VERIF_SIM_PERIOD_US': str(period)})
+    env = san_env({'VERIF_SIM_LOG': simlog, 'VERIF_SIM_PERIOD_US': str(period), 'VERIF_SIM_STARTUP_US': str(int(case.get('startup_us', 40000)))})
     derr = open(os.path.join(wd, 'daemon.err'), 'w')
     dp = subprocess.Popen(cmd, cwd=wd, env=env, stdin=subprocess.DEVNULL, stdout=subprocess.DEVNULL, stderr=derr)
     res['daemon_pid'] = dp.pid
